@@ -187,6 +187,7 @@ class Builder:
     def symmap(self, name, values):
         arr = z3.Array(name, z3.IntSort(), z3.IntSort())
         self.symbols[name] = arr
+        self.symmaps = getattr(self, "symmaps", []) + [(arr, list(values))]
         return self.I.alloc(self.st, HSymMap(arr, values))
 
     def enum(self, cls, name):
